@@ -154,11 +154,10 @@ Section S.
   Lemma e1_formula :
     o_lt O (L O_getDampingTime) 0 = false -> o_lt O 0 (L O_getDampingTime) = true ->
     fs <> 0 -> steps <> 0 -> L O_getDampingTime <> 0 ->
-    gen_e1 K O L B = two / (fs * L O_getDampingTime * steps) /\
-    gen_e1 K O L B = two * gen_dt K O L B / L O_getDampingTime.
+    gen_e1 K O L B = two / (fs * L O_getDampingTime * steps).
   Proof.
-    intros H1 H2 H3 H4 H5. unfold gen_dt. open_gen. rewrite H1, H2. unfold two.
-    split; field; repeat split; assumption.
+    intros H1 H2 H3 H4 H5. open_gen. rewrite H1, H2. unfold two.
+    field; repeat split; assumption.
   Qed.
 
   Lemma e1_off :
@@ -176,6 +175,6 @@ Section S.
     intros H1 H2 H3 H4 H5 H6 H7 H8.
     pose proof (fs_is_SyncFreq H3) as Ef. pose proof (steps_is_StepsPerTs H4 H5) as Es.
     assert (A : fs <> 0) by (rewrite Ef; exact H6). assert (A2 : steps <> 0) by (rewrite Es; exact H7).
-    destruct (e1_formula H1 H2 A A2 H8) as [E _]. rewrite E, Ef, Es. reflexivity.
+    rewrite (e1_formula H1 H2 A A2 H8), Ef, Es. reflexivity.
   Qed.
 End S.
